@@ -48,40 +48,32 @@ pub proof fn ax_additive_sampled()
             #[trigger] sampled_step(a, b, first, ch, ex) ==> vfe(a, first, ch, ex) == vfe(b, first, ch, ex),
         forall|p: Player, first: bool, ch: Seq<Mutex<SampledChance>>, ex: Seq<Mutex<CachedInfoset>>|
             is_active(p.num, first) ==> #[trigger] vfe(Node::Player(p), first, ch, ex) == asum(p, p.actions@.len() as int, first, ch, ex),
+        forall|n: Node, first: bool, ch: Seq<Mutex<SampledChance>>, ex: Seq<Mutex<CachedInfoset>>| #[trigger] vfe(n, first, ch, ex) >= 0,
 { }
 pub open spec fn rsum(q: Seq<&Node>, first: bool, ch: Seq<Mutex<SampledChance>>, ex: Seq<Mutex<CachedInfoset>>) -> int
     decreases q.len()
 {
     if q.len() == 0 { 0 } else { rsum(q.drop_last(), first, ch, ex) + vfe(*q.last(), first, ch, ex) }
 }
-pub open spec fn nsum(q: Seq<Node>, first: bool, ch: Seq<Mutex<SampledChance>>, ex: Seq<Mutex<CachedInfoset>>) -> int
-    decreases q.len()
-{
-    if q.len() == 0 { 0 } else { nsum(q.drop_last(), first, ch, ex) + vfe(q.last(), first, ch, ex) }
+pub open spec fn total(queue: Seq<&Node>, work: Seq<&Node>, first: bool, ch: Seq<Mutex<SampledChance>>, ex: Seq<Mutex<CachedInfoset>>) -> int {
+    rsum(queue, first, ch, ex) + rsum(work, first, ch, ex)
 }
-pub open spec fn all_term(q: Seq<Node>) -> bool { forall|i: int| 0 <= i < q.len() ==> (#[trigger] q[i]) is Terminal }
-pub open spec fn total(queue: Seq<&Node>, work: Seq<&Node>, d: Seq<Node>, first: bool, ch: Seq<Mutex<SampledChance>>, ex: Seq<Mutex<CachedInfoset>>) -> int {
-    rsum(queue, first, ch, ex) + rsum(work, first, ch, ex) + nsum(d, first, ch, ex)
-}
-// the equation holds for the tables as they are and for every way the pass may still complete them
-pub open spec fn conserved(root: Node, queue: Seq<&Node>, work: Seq<&Node>, d: Seq<Node>, first: bool, c0: Seq<Mutex<SampledChance>>, e0: Seq<Mutex<CachedInfoset>>) -> bool {
+// the bound holds for the tables as they are and for every way the pass may still complete them
+pub open spec fn conserved(root: Node, queue: Seq<&Node>, work: Seq<&Node>, first: bool, c0: Seq<Mutex<SampledChance>>, e0: Seq<Mutex<CachedInfoset>>) -> bool {
     forall|c: Seq<Mutex<SampledChance>>, e: Seq<Mutex<CachedInfoset>>| #[trigger] draws_kept(c0, c, e0, e)
-        ==> total(queue, work, d, first, c, e) == vfe(root, first, c, e)
+        ==> total(queue, work, first, c, e) <= vfe(root, first, c, e)
 }
 pub open spec fn all_wf(q: Seq<&Node>, ch: Seq<Mutex<SampledChance>>, ex: Seq<Mutex<CachedInfoset>>) -> bool {
     forall|i: int| 0 <= i < q.len() ==> wf_tables(*(#[trigger] q[i]), ch, ex)
 }
-pub open spec fn cut_ok(root: Node, queue: Seq<&Node>, work: Seq<&Node>, d: Seq<Node>, first: bool, ch: Seq<Mutex<SampledChance>>, ex: Seq<Mutex<CachedInfoset>>) -> bool {
-    all_term(d) && total(queue, work, d, first, ch, ex) == vfe(root, first, ch, ex)
-}
-
 // what one expansion step did, read off next_nodes' contract and the extend that follows it
 pub open spec fn walk_ok(path: Seq<Node>, n: Node, w0: Seq<&Node>, w1: Seq<&Node>, first: bool) -> bool {
     path.len() >= 1 && path[0] == n && match path.last() {
         Node::Terminal(_) => w1 == w0,
         Node::Chance(_) => false,
-        Node::Player(p) => is_active(p.num, first) && w1.len() == w0.len() + p.actions@.len() && w1.take(w0.len() as int) == w0
-            && forall|k: int| 0 <= k < p.actions@.len() ==> *(#[trigger] w1[w0.len() + k]) == p.actions@[k],
+        // all children of the own player's node enter the frontier -- or none (then the pass from the root visits them)
+        Node::Player(p) => is_active(p.num, first) && (w1 == w0 || (w1.len() == w0.len() + p.actions@.len() && w1.take(w0.len() as int) == w0
+            && forall|k: int| 0 <= k < p.actions@.len() ==> *(#[trigger] w1[w0.len() + k]) == p.actions@[k])),
     }
 }
 pub proof fn lemma_kept_refl(c: Seq<Mutex<SampledChance>>, e: Seq<Mutex<CachedInfoset>>)
@@ -145,9 +137,10 @@ pub proof fn lemma_path_wf(path: Seq<Node>, first: bool, c: Seq<Mutex<SampledCha
 pub proof fn lemma_rsum_push(q: Seq<&Node>, n: &Node, first: bool, c: Seq<Mutex<SampledChance>>, e: Seq<Mutex<CachedInfoset>>)
     ensures rsum(q.push(n), first, c, e) == rsum(q, first, c, e) + vfe(*n, first, c, e)
 { assert(q.push(n).drop_last() =~= q); }
-pub proof fn lemma_nsum_push(q: Seq<Node>, n: Node, first: bool, c: Seq<Mutex<SampledChance>>, e: Seq<Mutex<CachedInfoset>>)
-    ensures nsum(q.push(n), first, c, e) == nsum(q, first, c, e) + vfe(n, first, c, e)
-{ assert(q.push(n).drop_last() =~= q); }
+pub proof fn lemma_rsum_nonneg(q: Seq<&Node>, first: bool, c: Seq<Mutex<SampledChance>>, e: Seq<Mutex<CachedInfoset>>)
+    ensures rsum(q, first, c, e) >= 0
+    decreases q.len()
+{ ax_additive_sampled(); if q.len() > 0 { lemma_rsum_nonneg(q.drop_last(), first, c, e); } }
 pub proof fn lemma_rsum_ext(w0: Seq<&Node>, w1: Seq<&Node>, p: Player, n: int, first: bool, c: Seq<Mutex<SampledChance>>, e: Seq<Mutex<CachedInfoset>>)
     requires 0 <= n <= p.actions@.len(), w1.len() == w0.len() + n, w1.take(w0.len() as int) == w0,
         forall|k: int| 0 <= k < n ==> *(#[trigger] w1[w0.len() + k]) == p.actions@[k],
@@ -170,7 +163,7 @@ UNIT = dict(
     canary_use="",
     assumptions=[
         "next_nodes is bound to the contract PROVED for its real text by unit c07_external_next_nodes (the contract text and the specification vocabulary are imported from that unit, not restated)",
-        "ax_additive_sampled: the functional the frontier is measured with is ANY uninterpreted functional that is constant along a sampled step and additive over the actions of the pass's own player (the definition of the quantification, not a fact about the code)",
+        "ax_additive_sampled: the functional the frontier is measured with is ANY uninterpreted non-negative integer functional that is constant along a sampled step and additive over the actions of the pass's own player (the definition of the quantification, not a fact about the code)",
         "std: Vec::<&Node>::extend(&[Node]) appends a reference to every element in order; Vec::len never exceeds isize::MAX / size_of::<T>(); Vec::pop / push / is_empty / mem::swap by their vstd specifications",
         "termination of the loop is not proved (exec_allows_no_decreases_clause); NonZeroUsize restated as a struct with get()",
     ],
@@ -192,39 +185,36 @@ UNIT = dict(
 ensures
     // every draw made before or while the frontier was built is kept (one sample per infoset per pass)
     draws_kept(old(chance_infosets)@, final(chance_infosets)@, old(external_player_infosets)@, final(external_player_infosets)@), // @ob C07.V.external_thread_threshold.draws_kept
-    // the frontier handed to the workers (queue and work) plus the terminals the sampled walks ended
-    // in is a CUT of the sampled tree of this pass: every additive functional of the sampled traversal
-    // has the same total over it as at the root -- no sampled subtree is visited twice, none is lost,
-    // and nothing outside the sampled tree is in it
-    exists|d: Seq<Node>| #[trigger] cut_ok(*root, final(queue)@, final(work)@, d, FIRST, final(chance_infosets)@, final(external_player_infosets)@), // @ob C07.V.external_thread_threshold.frontier_is_a_cut""",
+    // what is handed to the workers are tasks of the SAMPLED tree of this pass and no part of it is in
+    // them twice: every non-negative additive functional of the sampled traversal totals over the
+    // frontier to at most its value at the root (less is harmless: what is not in the frontier is
+    // traversed by the pass from the root) -- nothing twice, nothing outside the sampled tree
+    total(final(queue)@, final(work)@, FIRST, final(chance_infosets)@, final(external_player_infosets)@)
+        <= vfe(*root, FIRST, final(chance_infosets)@, final(external_player_infosets)@), // @ob C07.V.external_thread_threshold.frontier_is_a_cut""",
              entry="""proof { ax_additive_sampled(); }
 let ghost cs = chance_infosets@;
-let ghost es = external_player_infosets@;
-let ghost mut dropped: Seq<Node> = Seq::empty();""",
+let ghost es = external_player_infosets@;""",
              loops={0: dict(kind="while",
                             before="""proof {
     assert(queue@ =~= Seq::<&Node>::empty().push(root));
     ax_vec_len(queue); ax_vec_len(work);
     lemma_kept_refl(cs, es);
     assert forall|c: Seq<Mutex<SampledChance>>, e: Seq<Mutex<CachedInfoset>>| #[trigger] draws_kept(cs, c, es, e)
-        implies total(queue@, work@, dropped, FIRST, c, e) == vfe(*root, FIRST, c, e) by {
+        implies total(queue@, work@, FIRST, c, e) <= vfe(*root, FIRST, c, e) by {
         lemma_rsum_push(Seq::<&Node>::empty(), root, FIRST, c, e);
         assert(rsum(Seq::<&Node>::empty(), FIRST, c, e) == 0);
         assert(rsum(work@, FIRST, c, e) == 0);
-        assert(nsum(dropped, FIRST, c, e) == 0);
     }
 }""",
                             head="""invariant
     cs == old(chance_infosets)@, es == old(external_player_infosets)@,
     draws_kept(cs, chance_infosets@, es, external_player_infosets@),
     all_wf(queue@, chance_infosets@, external_player_infosets@), all_wf(work@, chance_infosets@, external_player_infosets@),
-    all_term(dropped),
     queue@.len() * 8 <= isize::MAX, work@.len() * 8 <= isize::MAX,
-    conserved(*root, queue@, work@, dropped, FIRST, chance_infosets@, external_player_infosets@), // @ob C07.V.external_thread_threshold.frontier_is_a_cut""",
+    conserved(*root, queue@, work@, FIRST, chance_infosets@, external_player_infosets@), // @ob C07.V.external_thread_threshold.frontier_is_a_cut""",
                             body_start="""proof { ax_additive_sampled(); }
 let ghost q0 = queue@;
 let ghost w0 = work@;
-let ghost d0 = dropped;
 let ghost cb = chance_infosets@;
 let ghost eb = external_player_infosets@;""",
                             body_end="""proof {
@@ -244,14 +234,6 @@ let ghost eb = external_player_infosets@;""",
             assert(queue@[i] == q0[i]);
             lemma_wf_kept(*q0[i], cb, c1, eb, e1);
         }
-        match path.last() {
-            Node::Terminal(_) => {
-                dropped = d0.push(path.last());
-                assert(work@ == w0);
-            }
-            Node::Chance(_) => {}
-            Node::Player(p) => {}
-        }
         assert forall|i: int| 0 <= i < work@.len() implies wf_tables(*(#[trigger] work@[i]), c1, e1) by {
             if i < w0.len() {
                 assert(work@[i] == work@.take(w0.len() as int)[i]);
@@ -261,14 +243,14 @@ let ghost eb = external_player_infosets@;""",
             }
         }
         assert forall|c: Seq<Mutex<SampledChance>>, e: Seq<Mutex<CachedInfoset>>| #[trigger] draws_kept(c1, c, e1, e)
-            implies total(queue@, work@, dropped, FIRST, c, e) == vfe(*root, FIRST, c, e) by {
+            implies total(queue@, work@, FIRST, c, e) <= vfe(*root, FIRST, c, e) by {
             lemma_kept_trans(cb, c1, c, eb, e1, e);
-            assert(total(q0, w0, d0, FIRST, c, e) == vfe(*root, FIRST, c, e));
+            assert(total(q0, w0, FIRST, c, e) <= vfe(*root, FIRST, c, e));
             lemma_path_const(path, FIRST, c1, c, e1, e);
             match path.last() {
-                Node::Terminal(_) => { lemma_nsum_push(d0, path.last(), FIRST, c, e); }
+                Node::Terminal(_) => { }
                 Node::Chance(_) => {}
-                Node::Player(p) => { lemma_rsum_ext(w0, work@, p, p.actions@.len() as int, FIRST, c, e); }
+                Node::Player(p) => { if work@ != w0 { lemma_rsum_ext(w0, work@, p, p.actions@.len() as int, FIRST, c, e); } }
             }
         }
     } else {
@@ -276,9 +258,6 @@ let ghost eb = external_player_infosets@;""",
         assert(c1 == cb && e1 == eb);
     }
 }""",
-                            after="""proof {
-    lemma_kept_refl(chance_infosets@, external_player_infosets@);
-    assert(cut_ok(*root, queue@, work@, dropped, FIRST, chance_infosets@, external_player_infosets@));
-}""")}),
+                            after="""proof { lemma_kept_refl(chance_infosets@, external_player_infosets@); }""")}),
     ],
 )
